@@ -433,7 +433,12 @@ class FuncScope(Scope, Location, Resolvable):
     def get_argument(self, ctx, arg):
         # type: (EvalCtx, ArgumentName) -> Object | None
         if arg.idx == [0] and isinstance(self.parent, ClassScope):
-            return self.parent.resolve(ctx).call(ctx)
+            cls = self.parent.resolve(ctx)
+            for d in self.decorator_list:
+                v = ctx.evaluate(d)
+                if isinstance(v, RuntimeName) and v.is_builtin and v.name == 'classmethod':
+                    return cls
+            return cls.call(ctx)
         return None
 
     def resolve(self, ctx):
